@@ -359,8 +359,10 @@ def _grid_obligations_(ctx: Ctx, D: int, ac: bool, for_c02: bool, fractional: bo
         gt.facts.declare_positive(to_rat(x))
     g3 = it.new(Grid, size=STensor.from_flat(n3, [D]), spacing=STensor.from_flat(s3, [D]), center=STensor.from_flat(c, [D]),
                 direction=Rm, align_corners=not ac)
-    if not it.method(g, "same_domain_as", g3):
-        raise AnalysisError(f"T1 {tag}: same-domain scenario: grids are not reported as covering the same domain")
+    same_dom = bool(it.method(g, "same_domain_as", g3))
+    _guard(ctx, "T1.two-grids", f"{tag}:same_domain_as", prog.func("deepali.core.grid", "Grid.same_domain_as"), f"same_domain_as {tag}",
+           lambda: (same_dom, "two grids with equal center, orientation and cube extent (n - [align_corners]) * spacing under their own "
+                              "flags are not reported as covering the same domain"))
     for gname, gx in (("other grid", g2), ("same-domain grid", g3)):
         for a, b in itertools.product(AXES, AXES):
             def two_apply(a=a, b=b, gx=gx):
@@ -598,6 +600,34 @@ def run_cube(ctx: Ctx) -> None:
                 return teq(m, mg), f"Grid.cube() map {tstr(m)[:100]} vs grid cube map {tstr(mg)[:100]}"
             _guard(ctx, "T1.cube", f"{tag}:grid-cube:align_corners={ac}", prog.func("deepali.core.grid", "Grid.cube"),
                    f"grid.cube align_corners={ac} {tag}", gc)
+
+        # ... also for grids produced by other operations (non-integral internal size; cube()/domain()/Cube.from_grid)
+        for ac in (True, False):
+            def gcf(ac=ac):
+                gt = GridTables(ctx, D, ac, fractional=True)
+                it2, g = gt.it, gt.grid
+                n, s_, c_ = gt.atoms["n"], gt.atoms["s"], gt.atoms["c"]
+                gax = gt.ax["CUBE_CORNERS" if ac else "CUBE"]
+                mg = as_h(it2.method(g, "transform", gax, gt.ax["WORLD"]))
+                ext = [(n[i] - (1 if ac else 0)) * s_[i] for i in range(D)]
+                for how in ("cube", "domain", "from_grid"):
+                    if how == "from_grid":
+                        from ..tae import ClassVal
+                        cu = it2.method(ClassVal(prog.cls("deepali.core.cube", "Cube")), "from_grid", g)
+                    else:
+                        cu = it2.method(g, how)
+                    e_got = it2.method(cu, "extent")
+                    if not teq(e_got, STensor.from_flat(ext, [D])):
+                        return False, (f"{how}: cube extent {tstr(e_got)[:80]} of a grid with size() = {[int(to_rat(x).const_value()) for x in n]} "
+                                       f"is not (n{' - 1' if ac else ''}) * spacing = {tstr(STensor.from_flat(ext, [D]))[:80]}")
+                    m = as_h(it2.method(cu, "transform", gt.ax["CUBE"], gt.ax["WORLD"]))
+                    if not teq(m, mg):
+                        return False, f"{how}: the cube's CUBE->WORLD map differs from the grid's own cube map"
+                if not teq(it2.method(g, "cube_extent"), STensor.from_flat(ext, [D])):
+                    return False, "cube_extent() differs from (n - [align_corners]) * spacing"
+                return True, ""
+            _guard(ctx, "T1.cube", f"{tag}:grid-cube:fractional-size:align_corners={ac}", prog.func("deepali.core.grid", "Grid.cube"),
+                   f"grid.cube of a fractional-size grid align_corners={ac} {tag}", gcf)
 
 
 # --------------------------------------------------------------------------- grids with singleton axes (single slice / single row)
